@@ -12,6 +12,7 @@ import ZygoVerif.Spec.Subst
 import ZygoVerif.Proofs.SQ
 import ZygoVerif.Model.LegacySQ
 import ZygoVerif.Model.MacroCall
+import ZygoVerif.Generated.SQEmit
 namespace ZygoVerif.SQ
 open ZygoVerif.Subst
 
@@ -205,6 +206,53 @@ example :
         = some (mkList [sym "list", plus, .arr (mkList [num 1, num 2, plus])])
       ∧ expand exH.mkHash m [plus] = none := by
   decide
+
+/-! ### tie T1: the emission skeleton the model was written against
+`Generated/SQEmit.lean` is regenerated from generator.go on every run (extract/ex_sqemit.go):
+instructions added and generator calls made, in source order. Each line below is one arm of
+`genSQ` / `genListBody` / `genArrBody` / `genHashBody` / `genTop`. -/
+
+/-- GenerateSyntaxQuote: array → generateSyntaxQuoteArray, proper list → …List, hash → …Hash,
+anything else `PushInstr{arg}` (`genSQ`, outer match). -/
+theorem emit_top : Generated.SQEmit.top =
+    ["if[", "err", "]", "case[", "call:generateSyntaxQuoteArray", "]",
+     "case[", "call:generateSyntaxQuoteList", "]", "case[", "call:generateSyntaxQuoteHash", "]",
+     "add:PushInstr{arg}"] := by decide
+
+/-- generateSyntaxQuoteList: `(unquote e)` → the code of `e`; `(unquote-splicing e)` → the code
+of `e`, `explode`; otherwise marker, every element, `squash` (`genSQ` `.cons` arm). -/
+theorem emit_list : Generated.SQEmit.list =
+    ["case[", "err", "]",
+     "if[", "if[", "if[", "call:Generate", "]", "else[", "if[", "call:Generate", "add:ExplodeInstr", "]", "]", "]", "]",
+     "add:PushInstr{SexpMarker}", "loop[", "call:GenerateSyntaxQuote{expr}", "]", "add:SquashInstr"] := by decide
+
+/-- generateSyntaxQuoteArray: marker, per element (marker, element, squash, explode),
+vectorize (`genArrBody`). -/
+theorem emit_array : Generated.SQEmit.array =
+    ["case[", "err", "]", "add:PushInstr{SexpMarker}",
+     "loop[", "add:PushInstr{SexpMarker}", "call:GenerateSyntaxQuote{expr}", "add:SquashInstr", "add:ExplodeInstr", "]",
+     "add:VectorizeInstr"] := by decide
+
+/-- generateSyntaxQuoteHash: marker, per pair the key frame then the value frame, hashize
+(`genHashBody`; before fixes/C15-03 the value frame came first). -/
+theorem emit_hash : Generated.SQEmit.hash =
+    ["case[", "err", "]", "add:PushInstr{SexpMarker}",
+     "loop[", "add:PushInstr{SexpMarker}", "call:GenerateSyntaxQuote{key}", "add:SquashInstr", "add:ExplodeInstr",
+     "add:PushInstr{SexpMarker}", "call:GenerateSyntaxQuote{val}", "add:SquashInstr", "add:ExplodeInstr", "]",
+     "add:HashizeInstr"] := by decide
+
+/-- `case "syntaxQuote"`: the top-level splice check, then GenerateSyntaxQuote (`genTop`). -/
+theorem emit_syntaxQuote_case : Generated.SQEmit.syntaxQuoteCase =
+    ["call:isUnquoteSplicing", "if[", "err", "]", "call:GenerateSyntaxQuote"] := by decide
+
+/-- `syntaxQuote`, `quote`, `defmac`, `macexpand` are special forms, `unquote` and
+`unquote-splicing` are not (outside a template they are ordinary calls), and the macro table
+is consulted only after the special forms (`generate`: `special` before `macros`). -/
+theorem emit_call_by_symbol :
+    "syntaxQuote" ∈ Generated.SQEmit.callBySymbolCases ∧ "quote" ∈ Generated.SQEmit.callBySymbolCases
+    ∧ "defmac" ∈ Generated.SQEmit.callBySymbolCases ∧ "macexpand" ∈ Generated.SQEmit.callBySymbolCases
+    ∧ "unquote" ∉ Generated.SQEmit.callBySymbolCases ∧ "unquote-splicing" ∉ Generated.SQEmit.callBySymbolCases
+    ∧ Generated.SQEmit.macrosAfterSwitch = true := by decide
 
 /-! ### the pinned tree (before fixes/C15-02, C15-03 and the error-propagation commit) -/
 
